@@ -300,6 +300,10 @@ impl Scanner {
             if self.ch == '"' || self.ch == '\0' {
                 break;
             }
+            // a string may span lines: the lines it covers are counted
+            if self.ch == '\n' {
+                self.line += 1;
+            }
         }
         let the_str: String = self.input[position..self.position].iter().collect();
         if self.ch == '"' {
@@ -319,6 +323,9 @@ impl Scanner {
             return self.make_token(TokenType::Illegal, "'");
         }
         let the_char = self.input[self.position].to_string();
+        if the_char == "\n" {
+            self.line += 1;
+        }
         self.read_char();
         if self.ch == '\'' {
             return self.make_token(TokenType::Char, &the_char);
